@@ -8,6 +8,15 @@ import vlib
 NO_EDGE = 99
 
 
+
+def vacuity(ctx, msg):
+    """a vacuity alarm is a tool error only when nothing else explains the missing cases: with violations or
+    drift on record the verdict comes first and the alarm is demoted to a note"""
+    if ctx.violations or ctx.drift:
+        ctx.note("vacuity (demoted: violations or drift on record): " + msg)
+    else:
+        raise vlib.ToolError("vacuity: " + msg)
+
 def steps(g):
     out = []
     for i, m in enumerate(g["mk"], 1):
@@ -124,7 +133,7 @@ def run(ctx):
     for key in ("found_nonempty", "bellman_ford_no_arbitrage", "dfs_fallback_negative_cycle", "dfs_only", "at_step_limit",
                 "nothing_found"):
         if st[key] == 0:
-            raise vlib.ToolError("vacuity: no result with %s" % key)
+            vacuity(ctx, "no result with %s" % key)
     if st["panics"]:
         ctx.note("%d search call(s) panicked (treated as failed searches)" % st["panics"])
     for key, (_, case) in sorted(smallest.items()):
